@@ -528,7 +528,7 @@ def _fe_variants():
     for fk in ('functor', 'basic', 'basic2', 'puml', 'euml'):
         z = Zoo(
             name='fe_' + fk,
-            events=['e1', 'e2', 'e3'],
+            events=['e1', 'e2', 'e3', 'e4'],
             atoms_g=['G1', 'G2', 'G3'],
             atoms_a=['A1', 'A2', 'A3'],
             frontend=fk,
@@ -549,6 +549,14 @@ def _fe_variants():
                     Row('C', 'e3', 'C', gexpr=('or', ('and', 'G1', 'G2'), 'G3'), a=False),
                     Row('C', 'e2', 'B', a=False, g=False),
                     Row('A', 'e3', 'A', gexpr=('or', 'G1', ('or', 'G2', 'G3')), aseq=['A1']),
+                    # e4: internal rows that the functor variant writes in the state's own internal_transition_table
+                    # (guard only / action and guard / action only); declared last = tried first in the other variants,
+                    # with a lower-priority row behind the guarded ones
+                    Row('A', 'e4', 'B', g=False, aseq=['A2']),
+                    Row('B', 'e4', 'C', a=False, g=False),
+                    Row('A', 'e4', None, a=False, gexpr='G2', local=True),
+                    Row('B', 'e4', None, gexpr=('not', 'G1'), aseq=['A2', 'A3'], local=True),
+                    Row('C', 'e4', None, g=False, aseq=['A3', 'A1'], local=True),
                 ],
             ),
         )
